@@ -243,6 +243,13 @@ def run_shard(args):
         _, n, shard, sigma = args
         texts = [(t, 'chars len=%d' % l) for t, l in X.shard_strings(sigma, n, shard)]
         modes = ('exec',)
+    elif kind == 'dense':
+        texts = R.dense_family_texts(args[1])[args[2]::8]
+        modes = ('exec',)
+    elif kind == 'bignum':
+        from . import c06
+        texts = [(t, 'big numbers') for _, t in c06.big_numbers(args[1])][args[2]::4]
+        modes = ('eval',)
     elif kind == 'lexemes':
         _, n, shard = args
         texts = []
@@ -251,7 +258,7 @@ def run_shard(args):
         modes = ('exec',)
     else:
         _, paths, d = args
-        texts = [(t, '%s cost=%d' % (ln, c)) for t, c, ln in R.corpus_texts(paths, d, 'file', ['plain', 'comments-crlf-tab', 'spread-comments', 'cr', 'bom'])]
+        texts = [(t, '%s cost=%d' % (ln, c)) for t, c, ln in R.corpus_texts(paths, d, 'file', ['plain', 'comments-crlf-tab', 'spread-comments', 'cr', 'bom', 'trivia-run'])]
         modes = ('exec', 'single', 'eval')
     r = C.Result()
     for chunk in (texts[i:i + 4000] for i in range(0, len(texts), 4000)):
@@ -373,6 +380,8 @@ def run(tier, seed):
     jobs += [('chars', nc, s, core) for s in X.prefix_shards(core, nc, 2)]
     ll = 4 if tier == 'quick' else 5
     jobs += [('chars', ll, s, R.LAYOUT_LEX) for s in X.prefix_shards(R.LAYOUT_LEX, ll, 1 if tier == 'quick' else 2)]
+    jobs += [('dense', 64 if tier == 'quick' else 160, k) for k in range(8)]
+    jobs += [('bignum', tier, k) for k in range(4)]
     nl = 2 if tier == 'quick' else 3
     jobs += [('lexemes', nl, s) for s in X.prefix_shards(LEXEMES, nl, 1)]
     jobs += [('corpus', g, d) for g in K.group_shards(K.shards_for(d, 'file'), 64)]
